@@ -320,3 +320,26 @@ Proof.
   destruct (forallb _ winners); reflexivity.
 Qed.
 
+
+(* ---- x/bet/types/params.go Params.Validate (generated with its three validators): what an accepted bet parameter set satisfies ------------- *)
+Definition gbp_of (P : params) (query_count : Z) : G_betParams :=
+  {| G_betParams_BatchSettlementCount := pr_bet_batch P; G_betParams_MaxBetByUidQueryCount := query_count;
+     G_betParams_Constraints := {| G_Constraints_MinAmount := pr_bet_min P; G_Constraints_Fee := pr_bet_fee P |} |}.
+Lemma gen_bet_Validate P qc :
+  K_betParams_Validate (gbp_of P qc) = ((0 <? pr_bet_batch P) && (0 <? qc) && (1 <? pr_bet_min P) && (0 <=? pr_bet_fee P) && (pr_bet_fee P <? pr_bet_min P)).
+Proof.
+  unfold K_betParams_Validate, K__validateBatchSettlementCount, K__validateMaxBetByUIDQueryCount, K__validateConstraints. cbv zeta.
+  cbn [negb gbp_of G_betParams_BatchSettlementCount G_betParams_MaxBetByUidQueryCount G_betParams_Constraints G_Constraints_MinAmount G_Constraints_Fee].
+  rewrite (Z.leb_antisym 0 (pr_bet_batch P)), (Z.leb_antisym 0 qc), (Z.leb_antisym 1 (pr_bet_min P)), (Z.ltb_antisym 0 (pr_bet_fee P)),
+    (Z.leb_antisym (pr_bet_fee P) (pr_bet_min P)).
+  destruct (0 <? pr_bet_batch P), (0 <? qc), (1 <? pr_bet_min P), (0 <=? pr_bet_fee P), (pr_bet_fee P <? pr_bet_min P); reflexivity.
+Qed.
+Lemma bet_Validate_accepts P qc : K_betParams_Validate (gbp_of P qc) = true ->
+  0 < pr_bet_batch P /\ 1 < pr_bet_min P /\ 0 <= pr_bet_fee P < pr_bet_min P.
+Proof.
+  rewrite gen_bet_Validate. intros H. repeat (apply andb_true_iff in H; destruct H as [H ?]).
+  repeat match goal with
+         | X : (_ <? _) = true |- _ => apply Z.ltb_lt in X
+         | X : (_ <=? _) = true |- _ => apply Z.leb_le in X
+         end. lia.
+Qed.
